@@ -34,6 +34,7 @@ var _ = digest.SpecHashSlot // spec functions used by the contracts below
 //@   properties C10
 //@   nopanic
 //@   requires wf: rlWF(rl)
+//@   modifies rl.list, rl.minLeft, rl.maxRight, elems(rl.list)
 //@   ensures len: left <= right ==> len(rl.list) == old(len(rl.list)) + 1
 //@   ensures nn: forall j int :: 0 <= j && j < len(rl.list) ==> rl.list[j] != nil
 //@   ensures mn: forall j int :: 0 <= j && j < len(rl.list) ==> rl.minLeft <= rl.list[j].Left
